@@ -15,6 +15,7 @@
    independent RFC 8259 text generator with Python's `json` as independent reader.
 """
 import os
+import re
 import subprocess
 import sys
 
@@ -172,7 +173,12 @@ CLI_OPTS = [
     (["-c"], "c"), ([], "i2"), (["-S"], "i2S"), (["-c", "-S"], "cS"), (["--indent", "0"], "i0"),
     (["--indent", "1"], "i1"), (["--indent", "7"], "i7"), (["--tab"], "t"), (["--tab", "-S"], "tS"),
     (["--indent", "3", "-S"], "i3S"),
+    # round 2: colour options; `-C` output is compared after removing the ANSI style sequences
+    # (ESC never occurs in the writer's own output: it is escaped as \u001b inside strings)
+    (["-M"], "i2"), (["-C"], "i2"), (["-C", "-c"], "c"), (["-C", "--tab", "-S"], "tS"), (["-M", "-c", "-S"], "cS"),
 ]
+
+ANSI = re.compile(rb"\x1b\[[0-9;]*m")
 
 
 def run_jaq(ctx, args, data):
@@ -200,6 +206,18 @@ def cli_roundtrips(ctx):
     rc, base_sorted, _ = run_jaq(ctx, ["-c", "-S", "."], data)
     for opts, spec in CLI_OPTS:
         rc, out, err = run_jaq(ctx, opts + ["."], data)
+        if "-C" in opts:
+            n += 1
+            if b"\x1b[" not in out:
+                bad += 1
+                ctx.violation("c07-cli:%s:no-colour" % " ".join(opts), "`jaq -C` printed no ANSI style sequence at all",
+                              {"options": opts, "exit": rc}, broken=["correspondence c07-cli"])
+            out = ANSI.sub(b"", out)
+        elif b"\x1b" in out:
+            n += 1
+            bad += 1
+            ctx.violation("c07-cli:%s:escape-byte" % " ".join(opts), "uncoloured output contains a raw ESC byte",
+                          {"options": opts, "exit": rc}, broken=["correspondence c07-cli"])
         # (a) the bytes are what the proved model prints with the Pp that the options denote
         if ctx.model_bin:
             ans = ctx.model(["c07.write %s %s" % (spec, v) for v in vxs])
